@@ -461,7 +461,8 @@ func hostByHashing(pool []*Upstream, s string) *Upstream {
 			continue
 		}
 		h := hash(up.String() + s) // important to hash key and server together
-		if h > highestHash {
+		// the first available upstream is taken whatever its hash is (it can be 0)
+		if upstream == nil || h > highestHash {
 			highestHash = h
 			upstream = up
 		}
